@@ -20,7 +20,7 @@ theorem invHandedCorr_step (cfg : Cfg) (st : State) (ev : Ev) (st' : State)
   unfold InvHandedCorr at hinv ⊢
   analyse_step
   all_goals (intro o ho b m hom)
-  all_goals (try (rcases hout with ⟨hout, hsc'⟩ | ⟨hout, hsc'⟩))
+  split_mod
   all_goals (try (simp [returnNow, startRequest, fireAndForget, State.nextId, Phase.started] at *))
   all_goals (try (simp only [hws, haw, hrun, hout] at *))
   all_goals (try (grind [Phase.started]))
